@@ -1,5 +1,3 @@
-//go:build verif && c16wip
-
 package props
 
 // C16: Only the entitled producer's block is accepted (slot schedule, single, PoW).
@@ -1128,17 +1126,24 @@ func c16RunPowChain(k c16PowCase, o *c16Obs) *c16Fail {
 // recorded below as a HEAD failure candidate - into a HEAD-FAILURE log line and label.
 func c16Report(t *testing.T, c *hx.Collector, sub string, f *c16Fail, input interface{}, headID string, logged *int) {
 	if headID != "" {
-		c.Label("head-failure:" + headID)
-		if *logged < 3 {
-			*logged++
-			b, _ := json.Marshal(input)
-			t.Logf("HEAD-FAILURE: %s [%s] %s: %s input=%s", headID, sub, f.Kind, f.Msg, b)
+		// findings protocol: this failure signature is the trigger shape of a listed finding
+		if fd, ok := c16FS.Listed("C16-" + headID); ok && fd.Status == "known" {
+			c.Known(fd.What)
+			c.Exclude("C16-" + headID)
+			if *logged < 3 {
+				*logged++
+				b, _ := json.Marshal(input)
+				t.Logf("known finding %s [%s] %s: %s input=%s", headID, sub, f.Kind, f.Msg, b)
+			}
+			return
 		}
-		return
 	}
 	p := c.Violate(sub, f.Error(), []interface{}{input})
 	t.Errorf("C16 %s: %s (replay %s)", sub, f.Error(), p)
 }
+
+// c16FS is the known-findings file of this run (set by TestC16).
+var c16FS *hx.FindingSet
 
 func c16Mine(idx int) bool { return hx.Shards() <= 1 || idx%hx.Shards() == hx.Shard() }
 
@@ -1592,6 +1597,8 @@ func TestC16(t *testing.T) {
 		"PoW leading-zero format: candidate bits above 256 are not generated (IsProofed would shift by 2^32-bits)",
 		"timestamps are non-negative and not before 1970")
 	defer c.Flush(t)
+	c16FS = hx.LoadFindings()
+	regressFixed(t, c, c16FS, "C16")
 	for _, sub := range []struct {
 		name string
 		run  func(*testing.T, *hx.Collector)
